@@ -36,6 +36,8 @@ type World struct {
 	lastMsgs   map[uuid.UUID]*ent.Message
 	lastTopics map[uuid.UUID]*ent.Topic
 	lastDump   string
+	// delivery ids handed to a client by a pull (the only ids a client can name)
+	handed map[uuid.UUID]bool
 	// fault runs: called between an operation's last statement and its COMMIT
 	preCommit func()
 	faultMode bool
